@@ -33,19 +33,45 @@ Definition sp_advance (sender : N) (wm : Z) (during : list (nat * bytes * Z)) (s
                             if (1 <=? a)%nat && (a <=? length due)%nat && (cw <? t)%Z then sp_add (k, t) l else l) during rest in
   (due, {| sp_pending := rest'; sp_ups := ups; sp_wm := cw |}).
 
-(* the due sets of the advances of a history, in order (in no particular order inside one advance) *)
-Definition sp_step (srids : list N) (o : op) (s : spec) : list (list fired) * spec :=
+(* AdvanceWatermark whose consumer stops in the body of the k-th item (k = 0: the iterator is never run): [out] is what was
+   handed out.  Which of several due timers with equal timestamps come first is not determined, so the specification takes
+   the handed-out list as given, says what it must satisfy ([partial_ok] below) and what follows: exactly the handed-out
+   timers leave the pending list - they can never be handed out again -, every other timer stays pending; the consumer's
+   SetTimer calls after the n-th item happened for n <= length out. *)
+Definition removed (out P : list fired) : list fired := filter (fun x => negb (existsb (fired_eqb x) out)) P.
+Definition sp_advance_partial (sender : N) (wm : Z) (during : list (nat * bytes * Z)) (out : list fired) (s : spec) : list fired * spec :=
+  let ups := ups_set sender wm (sp_ups s) in
+  let cw := ups_min ups in
+  let due := filter (is_due cw) (sp_pending s) in
+  let rest' := fold_left (fun l e => let '(a, k, t) := e in
+                            if (1 <=? a)%nat && (a <=? length out)%nat && (cw <? t)%Z then sp_add (k, t) l else l) during
+                         (removed out (sp_pending s)) in
+  (due, {| sp_pending := rest'; sp_ups := ups; sp_wm := cw |}).
+
+(* what the specification expects of one advance: the due list, and [Some k] if the consumer stops after k items *)
+Definition expect := (list fired * option nat)%type.
+
+Definition is_adv (o : op) : bool := match o with SetTimer _ _ | Restore => false | _ => true end.
+
+(* [out]: what this advance handed out (used by AdvancePartial only) *)
+Definition sp_step (srids : list N) (o : op) (out : list fired) (s : spec) : list expect * spec :=
   match o with
   | SetTimer k t => ([], sp_set k t s)
-  | Advance sender wm => let '(due, s') := sp_advance sender wm [] s in ([due], s')
-  | AdvanceSet sender wm during => let '(due, s') := sp_advance sender wm during s in ([due], s')
+  | Advance sender wm => let '(due, s') := sp_advance sender wm [] s in ([(due, None)], s')
+  | AdvanceSet sender wm during => let '(due, s') := sp_advance sender wm during s in ([(due, None)], s')
+  | AdvancePartial sender wm k during => let '(due, s') := sp_advance_partial sender wm during out s in ([(due, Some k)], s')
   | Restore => ([], spec_new srids (sp_pending s))
   end.
 
-Fixpoint spec_run (srids : list N) (ops : list op) (s : spec) : list (list fired) * spec :=
+(* the expectations for the advances of a history, in order; [outs] = what the advances handed out, in order *)
+Fixpoint spec_run (srids : list N) (ops : list op) (outs : list (list fired)) (s : spec) : list expect * spec :=
   match ops with
   | [] => ([], s)
-  | o :: r => let '(out, s1) := sp_step srids o s in let '(outs, s2) := spec_run srids r s1 in (out ++ outs, s2)
+  | o :: r =>
+      let out := if is_adv o then hd [] outs else [] in
+      let outs' := if is_adv o then tl outs else outs in
+      let '(e, s1) := sp_step srids o out s in
+      let '(es, s2) := spec_run srids r outs' s1 in (e ++ es, s2)
   end.
 
 (* what an advance's output must satisfy with respect to the due set *)
@@ -56,11 +82,18 @@ Fixpoint time_sorted (l : list fired) : bool :=
   end.
 Definition count_fired (x : fired) (l : list fired) : nat := length (filter (fired_eqb x) l).
 
+(* a stopped consumer got: no timer twice, only due timers, in time order, as many as it asked for (or all that are due),
+   and no due timer that it did not get is earlier than one it got *)
+Definition partial_ok (k : nat) (due out : list fired) : Prop :=
+  NoDup out /\ incl out due /\ time_sorted out = true /\ length out = Nat.min k (length due) /\
+  forall x y, In x out -> In y due -> ~ In y out -> (snd x <= snd y)%Z.
+
 (* the guard of the theorems: registered timestamps are in [0, 2^63) ns *)
 Definition t_ok (t : Z) : bool := (0 <=? t)%Z && (t <? 2 ^ 63)%Z.
 Definition op_ok (o : op) : bool :=
   match o with
   | SetTimer _ t => t_ok t
   | AdvanceSet _ _ during => forallb (fun e => t_ok (snd e)) during
+  | AdvancePartial _ _ _ during => forallb (fun e => t_ok (snd e)) during
   | _ => true
   end.
